@@ -37,6 +37,7 @@ CORE_EXPRS = [
     "STT_FUNC", "STT_OBJECT", "STT_NOTYPE", "STB_GLOBAL", "STB_LOCAL", "STV_DEFAULT", "STV_HIDDEN",
     "STT_ARM_TFUNC", "STT_SPARC_REGISTER", "STT_GNU_IFUNC", "STB_MIPS_SPLIT_COMMON", "STB_GNU_UNIQUE",
     "\"\"", "\"a\"", "\"ab\"", "\"b\"", "\"a\\x00\"", "\"a\\x00b\"", "\"\\xff\"", "\"\\x7f\"", "\"A\"", "\"ab\"", "\"aa\"", "\"\\x80a\"",
+    "\"a\\x00c\"", "\"a\\x00bb\"", "\"a\\x00b\\x00\"", "\"\\x00\"", "\"\\x00\\x00\"", "\"\\x00a\"", "\"\\x00b\"", "\"ab\\x00\"",
     "[]", "[1]", "[1, 2]", "[2, 1]", "[\"a\", 1]", "[[]]", "[1, \"a\"]", "[0x1]", "[[1], [2]]", "[2]", "[1, 2]", "[[2], [1]]",
     "[1, 2, 3]", "[\"\"]", "[[], []]", "[true]", "[1, 1]", "[1, 2, 3, 4]", "[1, 2, 3, 5]", "[4, 3, 2, 1]", "[1, 2, 3, 4, 5]",
     "[1, 2, 3, 4]", "[0, 9, 9, 9, 9]", "[\"a\", \"b\", \"c\", \"d\"]", "[\"a\", \"b\", \"c\", \"e\"]",
